@@ -198,7 +198,7 @@ func (c *converter) ProgramEnd() error {
 			c.sliceAssignmentString("!%1!", "!_i!", "%3", false),
 			`set /A "_i=!_i!+1"`,
 			"goto :_sah_loop",
-			") else (",
+			") else if %2 geq !_len! (", // Only an assignment at or beyond the end changes the length.
 			`set /A "_len=%2+1"`,
 			c.callFuncString(sliceLenSetHelper, []string{}, "!%1!", "!_len!"),
 			")",
